@@ -55,6 +55,9 @@ var fnSpecs = []fnSpec{
 	{"level", "", "calcBitStorageSize", nil},
 	{"level", "", "calcBitsPerValue", nil},
 	{"level", "BitStorage", "calcIndex", nil},
+	{"level", "BitStorage", "Get", nil},
+	{"level", "BitStorage", "Set", nil},
+	{"level", "BitStorage", "Swap", nil},
 	{"level", "statesCfg", "bits", nil},
 	{"level", "biomesCfg", "bits", nil},
 	{"save/region", "", "In", nil},
@@ -65,6 +68,19 @@ var fnSpecs = []fnSpec{
 	{"nbt", "", "isAllowedInUnquotedString", nil},
 	{"nbt", "", "isFloatType", nil},
 	{"nbt", "", "isIntegerType", nil},
+}
+
+type knownFn struct {
+	cname string
+	free  []string // free variables (receiver fields ...) the callee takes after its explicit parameters
+	nres  int
+}
+
+// identifiers of packages the fake importer cannot resolve
+var builtinConsts = map[string]string{
+	"math.MaxUint64": "(18446744073709551615)", "math.MaxUint32": "(4294967295)", "math.MaxUint16": "(65535)", "math.MaxUint8": "(255)",
+	"math.MaxInt64": "(9223372036854775807)", "math.MinInt64": "(-9223372036854775808)", "math.MaxInt32": "(2147483647)", "math.MinInt32": "(-2147483648)",
+	"math.MaxInt16": "(32767)", "math.MinInt16": "(-32768)", "math.MaxInt8": "(127)", "math.MinInt8": "(-128)",
 }
 
 type trErr struct{ msg string }
@@ -79,7 +95,7 @@ type trans struct {
 	used     map[string]int      // Coq base name -> number of versions handed out
 	free     []string            // extra parameters (free variables), in order of first use
 	freeSet  map[string]bool
-	known    map[string]string // same-package translated functions: Go name -> Coq name
+	known    map[string]*knownFn // same-package translated functions: Go name (or Recv.Method) -> info
 	results  []string          // Go names of named results (may be empty)
 	nres     int
 	localsOK bool // unknown plain identifiers become parameters (local-expression mode)
@@ -87,6 +103,39 @@ type trans struct {
 	recvName string          // Go name of the receiver variable ("" if none)
 	recvType string          // receiver type name
 	fall     func() string   // when set: what falling off the end of the current statement list means
+	panics   bool            // the function has panic(...) statements: results are wrapped in gores
+	arrs     []string        // indexable receiver fields / slice parameters that are WRITTEN (Coq base name)
+	arrSet   map[string]bool
+	fnVars   map[string]bool // free variables of type Z -> Z
+}
+
+// arrName: the Coq base name of an indexable thing (recv.field or a slice parameter), "" if e is none
+func (t *trans) arrName(e ast.Expr) string {
+	switch x := e.(type) {
+	case *ast.SelectorExpr:
+		if id, ok := x.X.(*ast.Ident); ok {
+			return id.Name + "_" + x.Sel.Name
+		}
+	case *ast.Ident:
+		if _, ok := t.isBuf(x); ok {
+			return ""
+		}
+	}
+	return ""
+}
+
+func (t *trans) ret(rs []string) string {
+	rs = t.withBufs(rs)
+	var v string
+	if len(rs) == 0 {
+		v = "tt"
+	} else {
+		v = tuple(rs)
+	}
+	if t.panics {
+		return "(GoRet " + v + ")"
+	}
+	return v
 }
 
 func (t *trans) fail(n ast.Node, f string, a ...any) {
@@ -217,8 +266,23 @@ func (t *trans) expr(e ast.Expr) string {
 		t.fail(e, "unknown identifier %s", x.Name)
 	case *ast.SelectorExpr:
 		if id, ok := x.X.(*ast.Ident); ok {
+			if c, ok := builtinConsts[id.Name+"."+x.Sel.Name]; ok {
+				return c
+			}
 			return t.freeVar(id.Name + "_" + x.Sel.Name)
 		}
+	case *ast.IndexExpr:
+		// read of recv.field[i]: the field is a function Z -> Z (parameter), overlaid by this call's writes
+		if a := t.arrName(x.X); a != "" {
+			base := t.freeVar(a)
+			t.fnVars[base] = true
+			if t.arrSet[a] {
+				cur, _ := t.lookup(a + "_w")
+				return "(read_buf " + cur + " " + base + " " + t.expr(x.Index) + ")"
+			}
+			return "(" + base + " " + t.expr(x.Index) + ")"
+		}
+		t.fail(e, "unsupported index expression")
 		t.fail(e, "unsupported selector expression")
 	case *ast.UnaryExpr:
 		a := t.expr(x.X)
@@ -290,26 +354,42 @@ func (t *trans) expr(e ast.Expr) string {
 			}
 			return t.wrap(e, tv.Type, t.expr(x.Args[0]))
 		}
-		if id, ok := x.Fun.(*ast.Ident); ok {
-			if c, ok := t.known[id.Name]; ok {
-				args := []string{c}
-				for _, a := range x.Args {
-					args = append(args, t.expr(a))
-				}
-				return "(" + strings.Join(args, " ") + ")"
-			}
-		}
-		if sel, ok := x.Fun.(*ast.SelectorExpr); ok && len(x.Args) == 0 {
-			if id, ok := sel.X.(*ast.Ident); ok && t.recvName != "" && id.Name == t.recvName {
-				if c, ok := t.known[t.recvType+"."+sel.Sel.Name]; ok {
-					return "(" + c + " " + t.expr(id) + ")"
-				}
-			}
+		if c, _ := t.callKnown(x); c != "" {
+			return c
 		}
 		t.fail(e, "call of a function that is not translated")
 	}
 	t.fail(e, "unsupported expression %T", e)
 	return ""
+}
+
+// callKnown translates a call of a translated function f(args) or receiver method recv.M(args); the
+// callee's free variables (receiver fields) are passed through under the same names
+func (t *trans) callKnown(x *ast.CallExpr) (string, int) {
+	var k *knownFn
+	var args []string
+	if id, ok := x.Fun.(*ast.Ident); ok {
+		k = t.known[id.Name]
+	} else if sel, ok := x.Fun.(*ast.SelectorExpr); ok {
+		if id, ok := sel.X.(*ast.Ident); ok && t.recvName != "" && id.Name == t.recvName {
+			k = t.known[t.recvType+"."+sel.Sel.Name]
+			if k != nil {
+				if c, ok := t.lookup(id.Name); ok { // a receiver of integer type is the first parameter
+					args = append(args, c)
+				}
+			}
+		}
+	}
+	if k == nil {
+		return "", 0
+	}
+	for _, a := range x.Args {
+		args = append(args, t.expr(a))
+	}
+	for _, f := range k.free {
+		args = append(args, t.freeVar(f))
+	}
+	return "(" + strings.Join(append([]string{k.cname}, args...), " ") + ")", k.nres
 }
 
 type popMarker struct{ ast.EmptyStmt }
@@ -318,7 +398,7 @@ func (t *trans) resultTuple(n ast.Node) string {
 	if t.fall != nil {
 		return t.fall()
 	}
-	if len(t.results) == 0 {
+	if len(t.results) == 0 && t.nres > 0 {
 		t.fail(n, "control reaches the end of a function without named results")
 	}
 	var rs []string
@@ -326,13 +406,17 @@ func (t *trans) resultTuple(n ast.Node) string {
 		c, _ := t.lookup(r)
 		rs = append(rs, c)
 	}
-	return tuple(t.withBufs(rs))
+	return t.ret(rs)
 }
 
 // withBufs appends the current write logs of the []byte parameters to a result list
 func (t *trans) withBufs(rs []string) []string {
 	for _, b := range t.bufs {
 		c, _ := t.lookup(b)
+		rs = append(rs, c)
+	}
+	for _, a := range t.arrs {
+		c, _ := t.lookup(a + "_w")
 		rs = append(rs, c)
 	}
 	return rs
@@ -428,7 +512,7 @@ func (t *trans) stmts(list []ast.Stmt, at ast.Node) string {
 		for _, r := range x.Results {
 			rs = append(rs, t.expr(r))
 		}
-		return tuple(t.withBufs(rs))
+		return t.ret(rs)
 	case *ast.ExprStmt:
 		// binary.BigEndian.PutUintNN(buf, e): big-endian bytes written at indices 0..NN/8-1
 		if call, ok := x.X.(*ast.CallExpr); ok && len(call.Args) == 2 {
@@ -448,6 +532,11 @@ func (t *trans) stmts(list []ast.Stmt, at ast.Node) string {
 						}
 					}
 				}
+			}
+		}
+		if call, ok := x.X.(*ast.CallExpr); ok {
+			if id, ok := call.Fun.(*ast.Ident); ok && id.Name == "panic" {
+				return "GoPanic"
 			}
 		}
 		t.fail(x, "unsupported expression statement")
@@ -586,6 +675,42 @@ func (t *trans) stmts(list []ast.Stmt, at ast.Node) string {
 			}
 		}
 		var vals []string
+		if len(x.Rhs) == 1 && len(x.Lhs) > 1 {
+			if call, ok := x.Rhs[0].(*ast.CallExpr); ok {
+				c, n := t.callKnown(call)
+				if c == "" || n != len(x.Lhs) {
+					t.fail(x, "assignment of a multi-value expression")
+				}
+				var pats []string
+				for _, l := range x.Lhs {
+					id, ok := l.(*ast.Ident)
+					if !ok {
+						t.fail(x, "unsupported assignment target %T", l)
+					}
+					if id.Name == "_" {
+						pats = append(pats, "_")
+					} else if x.Tok == token.DEFINE {
+						pats = append(pats, t.define(id.Name))
+					} else {
+						pats = append(pats, t.assign(x, id.Name))
+					}
+				}
+				return fmt.Sprintf("let '(%s) := %s in\n  ", strings.Join(pats, ", "), c) + t.stmts(rest, at)
+			}
+		}
+		if len(x.Lhs) == 1 && len(x.Rhs) == 1 && x.Tok == token.ASSIGN {
+			if ix, ok := x.Lhs[0].(*ast.IndexExpr); ok {
+				if a := t.arrName(ix.X); a != "" {
+					if !t.arrSet[a] {
+						t.fail(x, "internal: write to %s not pre-registered", a)
+					}
+					v := t.expr(x.Rhs[0])
+					idx := t.expr(ix.Index)
+					cur, _ := t.lookup(a + "_w")
+					return fmt.Sprintf("let %s := (%s ++ [(%s, %s)])%%list in\n  ", t.assign(x, a+"_w"), cur, idx, v) + t.stmts(rest, at)
+				}
+			}
+		}
 		if x.Tok == token.DEFINE || x.Tok == token.ASSIGN {
 			if len(x.Lhs) != len(x.Rhs) {
 				t.fail(x, "assignment of a multi-value expression")
@@ -829,7 +954,7 @@ func genFuncs(repo string) (out string, err error) {
 		info  *types.Info
 	}
 	pkgs := map[string]*pk{}
-	known := map[string]map[string]string{}
+	known := map[string]map[string]*knownFn{}
 	for _, sp := range fnSpecs {
 		p := pkgs[sp.dir]
 		if p == nil {
@@ -843,7 +968,7 @@ func genFuncs(repo string) (out string, err error) {
 			conf.Check(sp.dir, fset, files, info)
 			p = &pk{fset, files, info}
 			pkgs[sp.dir] = p
-			known[sp.dir] = map[string]string{}
+			known[sp.dir] = map[string]*knownFn{}
 		}
 		fd := findFunc(p.files, sp.recv, sp.name)
 		if fd == nil || fd.Body == nil {
@@ -942,44 +1067,80 @@ func genFuncs(repo string) (out string, err error) {
 			continue
 		}
 		var rts []string
-		if fd.Type.Results == nil {
-			return "", fmt.Errorf("%s has no results", cname)
-		}
 		var inits bytes.Buffer
-		for _, f := range fd.Type.Results.List {
-			tv := p.info.Types[f.Type]
-			ct, e := coqType(tv.Type)
-			if e != nil {
-				return "", fmt.Errorf("%s: %v", cname, e)
-			}
-			if len(f.Names) == 0 {
-				rts = append(rts, ct)
-				continue
-			}
-			for _, n := range f.Names {
-				rts = append(rts, ct)
-				t.results = append(t.results, n.Name)
-				z := "(0)"
-				if ct == "bool" {
-					z = "false"
+		if fd.Type.Results != nil {
+			for _, f := range fd.Type.Results.List {
+				tv := p.info.Types[f.Type]
+				ct, e := coqType(tv.Type)
+				if e != nil {
+					return "", fmt.Errorf("%s: %v", cname, e)
 				}
-				fmt.Fprintf(&inits, "let %s := %s in\n  ", t.define(n.Name), z)
+				if len(f.Names) == 0 {
+					rts = append(rts, ct)
+					continue
+				}
+				for _, n := range f.Names {
+					rts = append(rts, ct)
+					t.results = append(t.results, n.Name)
+					z := "(0)"
+					if ct == "bool" {
+						z = "false"
+					}
+					fmt.Fprintf(&inits, "let %s := %s in\n  ", t.define(n.Name), z)
+				}
 			}
 		}
 		t.nres = len(rts)
 		for range t.bufs {
 			rts = append(rts, "list (Z * Z)")
 		}
-		body := bufInit.String() + inits.String() + t.stmts(fd.Body.List, fd)
-		for _, fv := range t.free {
-			params = append(params, fmt.Sprintf("(%s : Z)", fv))
+		// pre-scan: panic statements, and indexable receiver fields that are written
+		t.arrSet, t.fnVars = map[string]bool{}, map[string]bool{}
+		ast.Inspect(fd.Body, func(n ast.Node) bool {
+			switch x := n.(type) {
+			case *ast.CallExpr:
+				if id, ok := x.Fun.(*ast.Ident); ok && id.Name == "panic" {
+					t.panics = true
+				}
+			case *ast.AssignStmt:
+				for _, l := range x.Lhs {
+					if ix, ok := l.(*ast.IndexExpr); ok {
+						if a := t.arrName(ix.X); a != "" && !t.arrSet[a] {
+							t.arrSet[a] = true
+							t.arrs = append(t.arrs, a)
+						}
+					}
+				}
+			}
+			return true
+		})
+		var arrInit bytes.Buffer
+		for _, a := range t.arrs {
+			fmt.Fprintf(&arrInit, "let %s := (@nil (Z * Z)) in\n  ", t.define(a+"_w"))
+			rts = append(rts, "list (Z * Z)")
 		}
-		fmt.Fprintf(&b, "(* %s, func %s *)\nDefinition %s %s : %s :=\n  %s.\n\n", sp.dir, strings.TrimPrefix(sp.recv+"."+sp.name, "."), cname, strings.Join(params, " "), strings.Join(rts, " * "), body)
-		if len(t.free) == 0 && len(t.bufs) == 0 {
-			if sp.recv == "" {
-				known[sp.dir][sp.name] = cname
+		body := bufInit.String() + arrInit.String() + inits.String() + t.stmts(fd.Body.List, fd)
+		for _, fv := range t.free {
+			if t.fnVars[fv] {
+				params = append(params, fmt.Sprintf("(%s : Z -> Z)", fv))
 			} else {
-				known[sp.dir][sp.recv+"."+sp.name] = cname
+				params = append(params, fmt.Sprintf("(%s : Z)", fv))
+			}
+		}
+		rt := strings.Join(rts, " * ")
+		if len(rts) == 0 {
+			rt = "unit"
+		}
+		if t.panics {
+			rt = "gores (" + rt + ")"
+		}
+		fmt.Fprintf(&b, "(* %s, func %s *)\nDefinition %s %s : %s :=\n  %s.\n\n", sp.dir, strings.TrimPrefix(sp.recv+"."+sp.name, "."), cname, strings.Join(params, " "), rt, body)
+		if len(t.bufs) == 0 && len(t.arrs) == 0 && !t.panics && len(t.fnVars) == 0 {
+			k := &knownFn{cname: cname, free: append([]string{}, t.free...), nres: t.nres}
+			if sp.recv == "" {
+				known[sp.dir][sp.name] = k
+			} else {
+				known[sp.dir][sp.recv+"."+sp.name] = k
 			}
 		}
 	}
